@@ -227,7 +227,10 @@ class MinFlowDecomp(pathmodel.AbstractPathModelDAG): # Note that we inherit from
         if self.optimization_options.get("optimize_with_guessed_weights", MinFlowDecomp.optimize_with_given_weights):            
             self._solve_with_given_weights()
 
-        for i in range(self.get_lowerbound_k(), self.G.number_of_edges() + 1):
+        # With constraints more routes than edges can be needed: every constraint may require a route of its own
+        # (on top of the at most |E| routes an unconstrained solution needs)
+        max_k = self.G.number_of_edges() + len(self.subpath_constraints or [])
+        for i in range(self.get_lowerbound_k(), max_k + 1):
             utils.logger.info(f"{__name__}: iteration with k = {i}")
             fd_model = None
             # Checking if we have already found a solution with the same number of paths
